@@ -3,3 +3,15 @@ claim("C09", "DESIGN.md 3/C09",
       "every series of length 1..5 (thorough 7) over a 5-symbol alphabet x both methods x 36 threshold pairs is run on the real spike_test and compared per point with a scalar reference; complete inside the bound, silent outside it",
       "trusts the scalar reference model (refmodel/qc.py), numpy carriers built by the harness; values are region representatives (dyadic), lengths <= bound",
       TECH_TREE)
+claim("C03", "DESIGN.md 3/C03",
+      "all 272 (fail,suspect) span pairs over {0..3} and all 25 valid spans x 5 inclusivity settings are run on a product series with a value below/on/between/above every bound (3 orders) and on every series of length<=2 (thorough 3), numeric and datetime64; each call compared per point with the scalar reference",
+      "region abstraction: one representative per order region of every comparison; trusts refmodel/qc.py",
+      TECH_TREE)
+claim("C08", "DESIGN.md 3/C08",
+      "every member list of length<=2 over an 81-member menu (9 time kinds x 3 depth spans x 3 value-span sets, reversed spellings) [thorough: + length 3 over a 12-member sub-menu] is run on a 3332-point product series of calendar-edge instants x values x depths (3 orders, all-depth-missing, zinp=None) and on all short sequences; each point compared with a scalar reference using python's datetime calendar",
+      "trusts python datetime (ISO week, day of year), refmodel/qc.py; absolute spans limited to two; <=3 members",
+      TECH_TREE)
+claim("C10", "DESIGN.md 3/C10",
+      "every series of length<=4 (thorough 5) x every irregular gap sequence over {1,2,60,172800}s x 2 time carriers x 6 thresholds for rate_of_change_test, every track of length<=3 (thorough 4) over 8 positions x gaps x threshold pairs built from the track's own hop speeds for speed_test, and every unequal length combination; each call compared per point with the scalar reference",
+      "trusts geographiclib as the distance oracle (called per pair with explicit lat/lon) and IEEE division",
+      TECH_TREE)
